@@ -29,5 +29,7 @@ def run(ctx, rep):
     rep.run(RX.rule_overload_counter, ctx, rep, "Q4")
     rep.run(RX.rule_lookup_provenance, ctx, rep, "Q5")
     rep.run(RX.rule_filter_polarities, ctx, rep, "Q5")
+    rep.run(RX.rule_names_confirmed, ctx, rep, "Q5")
+    rep.run(RX.rule_extracted_elements_used, ctx, rep, "Q7")
     rep.run(RX.rule_docstring_untouched, ctx, rep, "Q6")
     rep.run(RF.rule_locals_defined, ctx, rep, "U1", packages=("gtwrap/xml_parser", "gtwrap/pybind_wrapper.py"), min_functions=3)
